@@ -20,9 +20,10 @@ Trace == ndJsonDeserialize("trace.ndjson")
 VARIABLES l,      \* cursor
           base,   \* line of the current scenario's reset (carries the configuration)
           d6,     \* monitor, see above
-          gated   \* fake peers whose reads are currently held back by the harness ("gate" action)
+          gated,  \* fake peers whose reads are currently held back by the harness ("gate" action)
+          fanleft \* topics whose fanout set lost a member (stream closed) since the last heartbeat
 
-tvars == <<l, base, d6, gated>>
+tvars == <<l, base, d6, gated, fanleft>>
 MP == INSTANCE MeshProps
 
 Rng(s) == {s[i] : i \in DOMAIN s}
@@ -146,6 +147,9 @@ HbViols(t) ==
        \cup {Viol("P_C07_Signalling", "graft-not-sent", t, p) : p \in {q \in A : ~(SentGraft(q, t) \/ PendGraft(Post, q, t))}}
        \cup {Viol("P_C07_Signalling", "prune-not-sent", t, p) :
                 p \in {q \in (V.M \ Mp) \cap Conn(Post) : ~(SentPrune(q, t) \/ PendPrune(Post, q, t))}}
+       \* a peer the heartbeat pruned (and backed off) is not grafted again by a later step of the same heartbeat
+       \cup {Viol("P_C07_Additions", "hb-grafted-peer-it-just-pruned", t, Ev(j).p) :
+                j \in {x \in EvIdx("Graft") : Ev(x).topic = t /\ \E i \in EvIdx("Prune") : i < x /\ Ev(i).topic = t /\ Ev(i).p = Ev(x).p}}
        \* pushed to the queue of a peer whose writes are not gated: the frame must have arrived
        \cup {Viol("P_C07_Signalling", "graft-not-on-wire", t, p) :
                 p \in {q \in (A \cap Conn(Post)) \ gated : SentGraft(q, t) /\ ~WireGraft(q, t) /\ Post.peers[q].q = 0}}
@@ -155,6 +159,9 @@ HbCov(t) ==
         Mp == MeshOf(Post, t)
         ph == MP!HbPhases(P, V, Post.ticks % P.oppTicks = 0, Mp)
     IN {Cov("hb-" \o x, t) : x \in ph} \cup {Cov("hb", t)}
+       \* a cut and a later graft step in one heartbeat, the topic's backoff map not existing yet when it started
+       \cup (IF "cut" \in ph /\ Mp \ V.M # {} /\ Keys(BoOf(Pre, t)) = {} THEN {Cov("hb-cut-then-add-no-backoff-map", t)} ELSE {})
+       \cup (IF "cut" \in ph /\ Mp \ V.M # {} THEN {Cov("hb-cut-then-add", t)} ELSE {})
        \cup (IF P.D = 0 /\ P.Dhi = 0 THEN {Cov("hb-allzero", t)} ELSE {})
        \cup (IF P.Dscore + P.Dout > P.D /\ "cut" \in ph THEN {Cov("hb-cut-unasserted-quality", t)} ELSE {})
        \* the outbound bubble-up of the over-subscription branch matters: Dout >= 2, more outbound members than were kept,
@@ -210,7 +217,7 @@ JoinViols(t) ==
              (IF p \in F THEN "join-promoted-" ELSE "join-selected-")
                \o (IF p \in V.direct THEN "direct" ELSE IF p \in V.boSure THEN "backoff" ELSE "negative"), t, p)
           : p \in {q \in Mp : q \in V.direct \/ q \in V.boSure \/ V.sc[q] < 0}}
-       \cup {Viol("P_C07_Signalling", "graft-not-sent", t, p) : p \in {q \in Mp : ~(SentGraft(q, t) \/ PendGraft(Post, q, t))}}
+       \cup {Viol("P_C07_Signalling", "graft-not-sent", t, p) : p \in {q \in Mp \cap Conn(Post) : ~(SentGraft(q, t) \/ PendGraft(Post, q, t))}}
 JoinCov(t) ==
     LET V == View(t)
         F == FanoutOf(Pre, t)
@@ -227,6 +234,19 @@ LeaveViols(t) ==
        : p \in {q \in MeshOf(Pre, t) \cap Conn(Post) : q \notin Downs /\ ~(SentPrune(q, t) \/ PendPrune(Post, q, t))}}
 LeaveCov(t) == {Cov("leave", t)} \cup (IF MeshOf(Pre, t) \cap Conn(Post) # {} THEN {Cov("leave-nonempty", t)} ELSE {})
 
+\* no RPC pushed (or dropped) in this step carries GRAFT and PRUNE for one topic (the staleness filter and the
+\* backoff rule exclude it: it would mean a peer was grafted while the backoff of its prune had just begun)
+RpcViols ==
+    UNION {{Viol("P_C07_Signalling", "graft-and-prune-for-one-topic-in-one-rpc", t, Ev(i).p) :
+               t \in {x \in Rng(Ev(i).rpc.graft) : \E j \in DOMAIN Ev(i).rpc.prune : Ev(i).rpc.prune[j].topic = x}}
+             : i \in EvIdx("Send") \cup EvIdx("Drop")}
+
+\* Join found a fanout set one of whose members had left since the last heartbeat (the set must not hold it any more)
+FanLeftNext ==
+    IF Line.hb >= 1 THEN {}
+    ELSE {t \in fanleft : t \in Keys(Post.fanout)}
+         \cup {t \in Keys(Pre.fanout) \cap Keys(Post.fanout) : FanoutOf(Pre, t) \cap Downs # {}}
+
 ------------------------------------------------------------------------------
 Topics == Keys(Pre.mesh) \cup Keys(Post.mesh)
 
@@ -239,13 +259,14 @@ LineViols ==
                        THEN (IF NoHb THEN JoinViols(t) ELSE {})
                      ELSE LeaveViols(t) : t \in Topics}
          \cup (IF PureHb THEN RetryViols ELSE {})
+         \cup RpcViols
 
 LineCov ==
     IF ~Gossip \/ Act = "reset" THEN {}
     ELSE UNION {IF t \in Keys(Pre.mesh) /\ t \in Keys(Post.mesh)
                   THEN (IF PureHb /\ Pre.scoresExact THEN HbCov(t) ELSE IF NoHb THEN StayCov(t) ELSE {Cov("hb-mixed", t)})
                 ELSE IF t \in Keys(Post.mesh)
-                  THEN (IF NoHb THEN JoinCov(t) ELSE {})
+                  THEN (IF NoHb THEN JoinCov(t) \cup (IF t \in fanleft THEN {Cov("join-fanout-after-member-left", t)} ELSE {}) ELSE {})
                 ELSE LeaveCov(t) : t \in Topics}
          \cup (IF PureHb THEN RetryCov ELSE {})
          \* one heartbeat grafts a connected peer in one topic and prunes it in another (one RPC carries both)
@@ -255,15 +276,16 @@ LineCov ==
 
 PrintAll(tag, S) == \A x \in S : PrintT(<<tag, ToJson(x)>>)
 
-TInit == TLCSet(1, 0) /\ l = 1 /\ base = 1 /\ d6 = {} /\ gated = {}
+TInit == TLCSet(1, 0) /\ l = 1 /\ base = 1 /\ d6 = {} /\ gated = {} /\ fanleft = {}
 
 TStep ==
     /\ l <= Len(Trace)
     /\ IF Act = "reset"
-         THEN base' = l /\ d6' = {} /\ gated' = {}
+         THEN base' = l /\ d6' = {} /\ gated' = {} /\ fanleft' = {}
          ELSE /\ base' = base
               /\ gated' = IF Act = "gate" THEN (IF Line.act.on THEN gated \cup {Line.act.p} ELSE gated \ {Line.act.p}) ELSE gated
               /\ d6' = IF Gossip THEN D6Next ELSE d6
+              /\ fanleft' = IF Gossip THEN FanLeftNext ELSE {}
               /\ PrintAll("VIOL", LineViols)
               /\ PrintAll("COV", LineCov)
     /\ l' = l + 1
